@@ -3,3 +3,4 @@ import AJ.Props.C10
 import AJ.Props.C10Class
 import AJ.Props.C01Doc
 import AJ.Props.C10Gen
+import AJ.Props.C10Gen2
